@@ -234,7 +234,24 @@ func yield(input c.RollbackLexer) ([]c.Node, *Error) {
 }
 
 func function(input c.RollbackLexer) ([]c.Node, *Error) {
-	return c.Fmap(mkFunction, c.Seq(parameters, acceptToken("->"), block))(input)
+	r, err := c.Seq(parameters, acceptToken("->"), block)(input)
+	if err != nil {
+		return nil, err
+	}
+	from := input.From()
+	to := input.To()
+
+	// every parameter needs a slot of its own in the call frame
+	seen := map[node.Name]bool{}
+	for _, p := range r[0].(node.List).Elems {
+		name := p.(node.Name)
+		if seen[name] {
+			return nil, c.NewError("duplicate parameter name "+string(name), from, to)
+		}
+		seen[name] = true
+	}
+
+	return mkFunction(r), nil
 }
 
 var parameters = c.Fmap(mkList,
